@@ -665,5 +665,11 @@ def r_same_horizon(ctx):
     solution.r_horizon_report(ctx)
 
 
-RULES = [r_ind_def, r_same_horizon, r_cost_func, r_minmax, r_ind_name, r_ind_read, r_ind_constraint,
+def r_makespan(ctx):
+    """'makespan': the horizon variable bounds every task end (R-HORIZON); minimising it gives the makespan"""
+    from rules import tasks
+    tasks.r_horizon(ctx)
+
+
+RULES = [r_ind_def, r_same_horizon, r_makespan, r_cost_func, r_minmax, r_ind_name, r_ind_read, r_ind_constraint,
          lambda ctx: resource_constraints.r_union_exh(ctx, bases=("Indicator", "Objective"))]
